@@ -193,3 +193,98 @@ theorem sqrt_nsq_smul (t : ℝ) (w : Fin 3 → ℝ) :
   rw [this, Real.sqrt_mul (sq_nonneg t), Real.sqrt_sq_eq_abs]
 
 end Flow
+
+/-! ### semigroup law -/
+set_option maxHeartbeats 4000000
+namespace Flow
+open Rot Matrix
+
+/-- x·1 + y·ω^ + z·ω^² -/
+def poly3 (w : Fin 3 → ℝ) (x y z : ℝ) : Matrix (Fin 3) (Fin 3) ℝ := x • (1 : Matrix (Fin 3) (Fin 3) ℝ) + y • hat w + z • (hat w * hat w)
+
+/-- products of such matrices, reduced with ω^³ = −|ω|² ω^ -/
+theorem poly3_mul (w : Fin 3 → ℝ) (x y z x' y' z' : ℝ) :
+    poly3 w x y z * poly3 w x' y' z'
+      = poly3 w (x * x') (x * y' + y * x' - nsq w * (y * z' + z * y')) (x * z' + z * x' + y * y' - nsq w * (z * z')) := by
+  ext i j; fin_cases i <;> fin_cases j <;>
+    simp [poly3, hat, Matrix.mul_apply, Fin.sum_univ_three, nsq, Matrix.one_apply] <;> ring
+
+theorem poly3_add (w : Fin 3 → ℝ) (x y z x' y' z' : ℝ) :
+    poly3 w x y z + poly3 w x' y' z' = poly3 w (x + x') (y + y') (z + z') := by
+  simp only [poly3, add_smul]; abel
+
+theorem poly3_smul (w : Fin 3 → ℝ) (c x y z : ℝ) : c • poly3 w x y z = poly3 w (c * x) (c * y) (c * z) := by
+  simp only [poly3, smul_add, smul_smul]
+
+section coeff
+variable (n s t : ℝ) (hn : n ≠ 0)
+include hn
+
+theorem sig_add : sig n (s + t) = sig n s + sig n t - n ^ 2 * (sig n s * alpha n t + alpha n s * sig n t) := by
+  unfold sig alpha; rw [mul_add, Real.sin_add]; field_simp; ring
+theorem alpha_add : alpha n (s + t) = alpha n s + alpha n t + sig n s * sig n t - n ^ 2 * (alpha n s * alpha n t) := by
+  unfold sig alpha; rw [mul_add, Real.cos_add]; field_simp; ring
+theorem alpha_add' : alpha n (s + t) = alpha n s + (alpha n t + sig n s * t - n ^ 2 * (sig n s * beta n t + alpha n s * alpha n t)) := by
+  unfold sig alpha beta; rw [mul_add, Real.cos_add]; field_simp; ring
+theorem beta_add : beta n (s + t) = beta n s + (beta n t + alpha n s * t + sig n s * alpha n t - n ^ 2 * (alpha n s * beta n t)) := by
+  unfold sig alpha beta; rw [mul_add, Real.sin_add]; field_simp; ring
+theorem beta_add' : beta n (s + t) = beta n s + t * alpha n s
+    + (beta n t + sig n s * (t ^ 2 / 2) - n ^ 2 * (sig n s * gamma n t + alpha n s * beta n t)) := by
+  unfold sig alpha beta gamma; rw [mul_add, Real.sin_add]; field_simp; ring
+theorem gamma_add : gamma n (s + t) = gamma n s + t * beta n s
+    + (gamma n t + alpha n s * (t ^ 2 / 2) + sig n s * beta n t - n ^ 2 * (alpha n s * gamma n t)) := by
+  unfold sig alpha beta gamma; rw [mul_add, Real.cos_add]; field_simp; ring
+end coeff
+
+theorem Rflow_poly (R0 : Matrix (Fin 3) (Fin 3) ℝ) (w : Fin 3 → ℝ) (t : ℝ) :
+    Rflow R0 w t = R0 * poly3 w 1 (sig (Real.sqrt (nsq w)) t) (alpha (Real.sqrt (nsq w)) t) := by
+  simp [Rflow, poly3]
+theorem vflow_poly (R0 : Matrix (Fin 3) (Fin 3) ℝ) (v0 a w : Fin 3 → ℝ) (g t : ℝ) :
+    vflow R0 v0 a w g t = v0 + ![0, 0, -(g * t)]
+      + (R0 * poly3 w t (alpha (Real.sqrt (nsq w)) t) (beta (Real.sqrt (nsq w)) t)).mulVec a := by
+  simp [vflow, poly3, Matrix.mulVec_mulVec]
+theorem pflow_poly (R0 : Matrix (Fin 3) (Fin 3) ℝ) (p0 v0 a w : Fin 3 → ℝ) (g t : ℝ) :
+    pflow R0 p0 v0 a w g t = p0 + t • v0 + ![0, 0, -(g * (t ^ 2 / 2))]
+      + (R0 * poly3 w (t ^ 2 / 2) (beta (Real.sqrt (nsq w)) t) (gamma (Real.sqrt (nsq w)) t)).mulVec a := by
+  simp [pflow, poly3, Matrix.mulVec_mulVec]
+
+/-- **semigroup law of the strap-down flow**: flowing for s and then for t (with the same constant inputs) is flowing for
+    s + t — attitude, velocity and position -/
+theorem flow_semigroup (R0 : Matrix (Fin 3) (Fin 3) ℝ) (p0 v0 a w : Fin 3 → ℝ) (g s t : ℝ) (hw : nsq w ≠ 0) :
+    Rflow R0 w (s + t) = Rflow (Rflow R0 w s) w t
+    ∧ vflow R0 v0 a w g (s + t) = vflow (Rflow R0 w s) (vflow R0 v0 a w g s) a w g t
+    ∧ pflow R0 p0 v0 a w g (s + t) = pflow (Rflow R0 w s) (pflow R0 p0 v0 a w g s) (vflow R0 v0 a w g s) a w g t := by
+  have hn : Real.sqrt (nsq w) ≠ 0 := by
+    intro h; exact hw (le_antisymm (Real.sqrt_eq_zero'.mp h) (nsq_nonneg w))
+  have h2 : Real.sqrt (nsq w) ^ 2 = nsq w := Real.sq_sqrt (nsq_nonneg w)
+  generalize hnn : Real.sqrt (nsq w) = n at hn h2
+  refine ⟨?_, ?_, ?_⟩
+  · rw [Rflow_poly, Rflow_poly, Rflow_poly, hnn, Matrix.mul_assoc, poly3_mul, ← h2, sig_add n s t hn, alpha_add n s t hn]
+    congr 2 <;> ring
+  · rw [vflow_poly, vflow_poly, vflow_poly, Rflow_poly, hnn, Matrix.mul_assoc, poly3_mul, ← h2,
+      alpha_add' n s t hn, beta_add n s t hn]
+    have e : poly3 w (s + t) (alpha n s + (alpha n t + sig n s * t - n ^ 2 * (sig n s * beta n t + alpha n s * alpha n t)))
+          (beta n s + (beta n t + alpha n s * t + sig n s * alpha n t - n ^ 2 * (alpha n s * beta n t)))
+        = poly3 w s (alpha n s) (beta n s)
+          + poly3 w (1 * t) (1 * alpha n t + sig n s * t - n ^ 2 * (sig n s * beta n t + alpha n s * alpha n t))
+              (1 * beta n t + alpha n s * t + sig n s * alpha n t - n ^ 2 * (alpha n s * beta n t)) := by
+      rw [poly3_add]; congr 1 <;> ring
+    rw [e, Matrix.mul_add, Matrix.add_mulVec]
+    have hz : (![0, 0, -(g * (s + t))] : Fin 3 → ℝ) = ![0, 0, -(g * s)] + ![0, 0, -(g * t)] := by
+      funext i; fin_cases i <;> simp; ring
+    rw [hz]; simp only [one_mul]; abel
+  · rw [pflow_poly, pflow_poly, pflow_poly, vflow_poly, Rflow_poly, hnn, Matrix.mul_assoc, poly3_mul, ← h2,
+      beta_add' n s t hn, gamma_add n s t hn]
+    have e : poly3 w ((s + t) ^ 2 / 2)
+          (beta n s + t * alpha n s + (beta n t + sig n s * (t ^ 2 / 2) - n ^ 2 * (sig n s * gamma n t + alpha n s * beta n t)))
+          (gamma n s + t * beta n s + (gamma n t + alpha n s * (t ^ 2 / 2) + sig n s * beta n t - n ^ 2 * (alpha n s * gamma n t)))
+        = poly3 w (s ^ 2 / 2) (beta n s) (gamma n s) + t • poly3 w s (alpha n s) (beta n s)
+          + poly3 w (1 * (t ^ 2 / 2)) (1 * beta n t + sig n s * (t ^ 2 / 2) - n ^ 2 * (sig n s * gamma n t + alpha n s * beta n t))
+              (1 * gamma n t + alpha n s * (t ^ 2 / 2) + sig n s * beta n t - n ^ 2 * (alpha n s * gamma n t)) := by
+      rw [poly3_smul, poly3_add, poly3_add]; congr 1 <;> ring
+    rw [e, Matrix.mul_add, Matrix.mul_add, Matrix.add_mulVec, Matrix.add_mulVec, Matrix.mul_smul, Matrix.smul_mulVec]
+    have hz : (![0, 0, -(g * ((s + t) ^ 2 / 2))] : Fin 3 → ℝ)
+        = ![0, 0, -(g * (s ^ 2 / 2))] + t • ![0, 0, -(g * s)] + ![0, 0, -(g * (t ^ 2 / 2))] := by
+      funext i; fin_cases i <;> simp; ring
+    rw [hz]; simp only [one_mul, smul_add, add_smul]; abel
+end Flow
